@@ -577,7 +577,7 @@ Definition tr_delta (pipe : bool) (q : tr_q) (t : tr_tag) : option tr_q :=
   | Q5, TgSucc => Some Q6
   | Q6, TgComp => if pipe then Some Q7 else None
   | Q6, TgData => if pipe then Some Q7 else Some Q11
-  | Q6, TgFinish => if pipe then Some Q8 else None
+  | Q6, TgFinish => if pipe then Some Q8 else Some Q11   (* legacy: a chunk whose coding is empty is still a DATA message *)
   | Q6, TgMd5 => if pipe then None else Some Q10
   | Q7, TgData => Some Q7
   | Q7, TgFinish => Some Q8
